@@ -17,6 +17,8 @@ pub fn run(ctx: &Ctx, st: &mut Local) {
         "C12" => {
             crate::props_file::run_c12(ctx, st);
             crate::props_file::run_c12_hist(ctx, st);
+            crate::props_file::run_c12_buf(ctx, st);
+            crate::props_file::run_c12_damaged(ctx, st);
             crate::props_file::run_c12_big(ctx, st);
         }
         "C13" => crate::props_file::run_c13(ctx, st),
